@@ -44,10 +44,6 @@ Proof.
     intros [<- | []]. split; [exact Logic.I | eauto].
 Qed.
 
-Lemma array_loop_inl ms : forall s acc rng got s' rs rng' got',
-  array_loop s ms acc rng got = inl (s', rs, rng', got') -> True.
-Proof. auto. Qed.
-
 Lemma handle_back_outs s fr o : In o (rres_out (handle_back s fr)) ->
   match o with
   | OComplete h (CResp r) => fr = FSingle (IResp r) /\ req_lookup (rs_id r) (m s) = Some (KCall (Some h))
